@@ -79,12 +79,14 @@ def doOp (sc : Scen) (s : St) (op : String) : Option St :=
     | some k =>
       -- PID.Restart: a stopped actor is re-initialised (its stopped descendants stay stopped); a running
       -- one is stopped and re-initialised together with its running descendants: running either way
-      -- (restartSubtree re-attaches under the parent found in the tree; the death watch has removed a
-      --  stopped actor's node, the parent then defaults to NoSender and addOrAttachNode does nothing:
-      --  the actor runs again but is in nobody's subtree and not resolvable by name)
+      -- A stopped actor is no longer in the tree (the death watch removed its node); Restart recovers the
+      -- parent from the address the actor was spawned with: the recorded parent for a child (which must still
+      -- be running, otherwise the restart is refused), the user guardian for a top-level actor.
       if k < n then
-        some { s with dead := s.dead.filter (· != k),
-                      orphan := if s.dead.contains k && !s.orphan.contains k then k :: s.orphan else s.orphan,
+        let parentAlive := match sc.parents[k]? with
+          | some (some p) => !s.dead.contains p
+          | _ => true
+        some { s with dead := if parentAlive then s.dead.filter (· != k) else s.dead,
                       res := "." :: s.res, star := s.star || s.stopped }
       else none
     | none =>
